@@ -3,6 +3,7 @@ package simos
 import (
 	"path/filepath"
 	"sort"
+	"syscall"
 
 	"github.com/google/pprof/internal/verifsim/simrt"
 )
@@ -145,6 +146,21 @@ func SetPlan(faults []Fault) {
 	}
 	k.nplan = len(faults)
 }
+
+// SetDiskFullFrom makes every write (and, with creates, every file or
+// directory creation) from the given I/O index on fail with errno: a fault
+// that persists, unlike the one-shot faults of the plan. from < 0 turns it off.
+//
+//go:norace
+func SetDiskFullFrom(from int64, creates bool, errno syscall.Errno) {
+	k.fullFrom, k.fullCreates, k.fullErrno = from, creates, errno
+}
+
+// FiredFull returns how many calls failed because of SetDiskFullFrom since
+// the last call of FiredFull.
+//
+//go:norace
+func FiredFull() int64 { n := k.firedFull; k.firedFull = 0; return n }
 
 // SetRandomFaults makes every call of the listed ops fail with probability
 // permille/1000, drawn from the run's tape.
